@@ -48,6 +48,11 @@ type PipeEnd struct {
 	nonblock    bool
 	closes      int
 	OnClose     func()
+	wRead       string
+	wWrite      string
+	wClose      string
+	wPoll       string
+	wPollWait   string
 }
 
 var pipeSeq int
@@ -60,6 +65,10 @@ func NewPipe() (*PipeEnd, *PipeEnd) {
 	p := &pipeState{id: pipeSeq}
 	a := &PipeEnd{p: p, side: 0, WriteFaults: -1}
 	b := &PipeEnd{p: p, side: 1, WriteFaults: -1}
+	for _, e := range []*PipeEnd{a, b} {
+		n := e.String()
+		e.wRead, e.wWrite, e.wClose, e.wPoll, e.wPollWait = "env:read "+n, "env:write "+n, "env:close "+n, "env:poll-read "+n, "env:poll-wait "+n
+	}
 	vs.RegisterObj(a)
 	vs.RegisterObj(b)
 	return a, b
@@ -75,7 +84,7 @@ func (e *PipeEnd) ReadMessage(buf []byte) ([]byte, error) {
 	if e.nonblock {
 		return e.readNonblock(buf)
 	}
-	vs.BlockObj("env:read "+e.String(), &p.obj[e.side], func() bool {
+	vs.BlockObj(e.wRead, &p.obj[e.side], func() bool {
 		return len(*e.inq()) > 0 || p.closed[e.side] || p.closed[1-e.side] || p.dead || p.reset
 	})
 	return e.take(buf)
@@ -108,7 +117,7 @@ func (e *PipeEnd) take(buf []byte) ([]byte, error) {
 // WriteMessage is a scheduling point; the data is copied (as the kernel would).
 func (e *PipeEnd) WriteMessage(b []byte) error {
 	p := e.p
-	vs.BlockObj("env:write "+e.String(), &p.obj[1-e.side], func() bool {
+	vs.BlockObj(e.wWrite, &p.obj[1-e.side], func() bool {
 		return p.capacity == 0 || len(p.q[e.side]) < p.capacity || p.closed[e.side] || p.closed[1-e.side] || p.dead || p.reset
 	})
 	if p.closed[e.side] {
@@ -142,7 +151,7 @@ func (e *PipeEnd) WriteMessage(b []byte) error {
 
 // Close closes this end: its own reads and writes fail, the peer drains and then reads EOF.
 func (e *PipeEnd) Close() error {
-	vs.BlockObj("env:close "+e.String(), &e.p.obj[e.side], nil)
+	vs.BlockObj(e.wClose, &e.p.obj[e.side], nil)
 	e.closes++
 	if !e.p.closed[e.side] {
 		e.p.closed[e.side] = true
